@@ -58,8 +58,18 @@ def lv (t : String) : Option LV :=
   else if t.startsWith "e" then (elem t).map fun p => LV.el p.1 p.2
   else none
 
+/-- a 16-bit operand: `w<name>` (unsigned short variable), `k<n>` (constant), `b<name>` (unsigned char variable) -/
+def wa (t : String) : Option WA :=
+  if t.startsWith "w" then some (.wvar (t.drop 1).toString)
+  else if t.startsWith "b" then some (.wbyte (t.drop 1).toString)
+  else if t.startsWith "k" then ((t.drop 1).toString.toNat?).bind fun n => if n < 65536 then some (.wconst (BitVec.ofNat 16 n)) else none
+  else none
+
 def flat (t : String) : Option RStmt :=
   match t.splitOn ":" with
+  | ["wasg", s, a] => (wa a).map fun a => RStmt.asgW s a
+  | ["wbin", s, o, a, b] => do let o ← bop o; let a ← wa a; let b ← wa b; some (RStmt.binW s o a b)
+  | ["woas", s, o, a] => do let o ← bop o; let a ← wa a; some (RStmt.opasgW s o a)
   | ["asg", v, a] => do let v ← lv v; let a ← ra a; some (RStmt.asg v a)
   | ["bin", v, o, a, b] => do let v ← lv v; let o ← bop o; let a ← ra a; let b ← ra b; some (RStmt.bin v o a b)
   | ["oas", v, o, a] => do let v ← lv v; let o ← bop o; let a ← ra a; some (RStmt.opasg v o a)
